@@ -52,6 +52,9 @@ checks = {
  "C18": ("exploration", "small-scope exhaustive enumeration of package trees, member names, dot paths, aliases and read/write routes against a visibility model",
          "a package tree of depth 3 (thorough 4) with values, functions, hashes (with nested hash) and nested packages under upper-case, lower-case and underscore names at every level; every member x every dot path {direct, alias of the top package, alias of each nested package on the way} x 4 read routes and 2 write routes; allowed iff the last hop is capitalised (hash fields: iff the hash is stored under a capitalised name), allowed -> the member's unique number / effective write, denied -> error and member unchanged; inside code keeps access",
          "trusts the visibility model R7; lower-case fields of hashes are not judged", "§3 C18"),
+ "C10": ("exploration", "small-scope exhaustive enumeration of records of harness-registered Go struct types covering every field kind, checked with reflect.DeepEqual and an echo through Go methods",
+         "Go value fixed first, record text derived from it: 37 single-field cases over 18 field kinds, all (quick: a third of the) ordered pairs of fields, all triples of fields (thorough), 6 sharing patterns; SexpToGoStructs and (togo r) give DeepEqual values with one object per shared record; (_method a EchoSelf:) returns an equivalent record; 11 records with undeclared fields or wrong-kind values are reported as errors",
+         "types registered by the harness through the public registry; unset fields may come back as zero values; the time.Time loss on the way back is a recorded finding pinned by the repository's own tests", "§3 C10"),
 }
 all_ids = ["C%02d" % i for i in range(1, 21)]
 pending = {i: "check not built yet in this tree (see DESIGN.md §7 build order); will be claimed when its machinery lands" for i in all_ids if i not in checks}
